@@ -203,6 +203,22 @@ func (view *View) group(ctx context.Context, scope *ReferenceScope, items []pars
 		}
 	}
 
+	if 1 < gm.Number {
+		// The workers discover the keys concurrently: put the groups in the order of their first record,
+		// which is the order a single worker produces, whatever the schedule was.
+		firstIndices := make(map[string]int, len(groupKeys))
+		for i := range groupsList {
+			for k, indices := range groupsList[i] {
+				if idx, ok := firstIndices[k]; !ok || indices[0] < idx {
+					firstIndices[k] = indices[0]
+				}
+			}
+		}
+		sort.Slice(groupKeys, func(i, j int) bool {
+			return firstIndices[groupKeys[i]] < firstIndices[groupKeys[j]]
+		})
+	}
+
 	records := make(RecordSet, len(groupKeys))
 	calcCnt := view.RecordLen() * len(groupKeys)
 	minReq := -1
